@@ -837,6 +837,28 @@ def mm_transparent(name):
     return f
 
 
+def _dict_setitem(interp, d, args):
+    key, value = args
+    if isinstance(key, Sym):
+        from .interp import _MISSING
+        k = interp.dict_find_key(d, key)
+        if k is _MISSING:
+            raise Unmodelled("storing under a new symbolic key in a real dict")
+        key = k
+    dict.__setitem__(d, key, value)
+
+
+def _dict_delitem(interp, d, args):
+    key = args[0]
+    if isinstance(key, Sym):
+        from .interp import _MISSING
+        k = interp.dict_find_key(d, key)
+        if k is _MISSING:
+            raise KeyError(key)
+        key = k
+    dict.__delitem__(d, key)
+
+
 def mm_dict_setdefault(interp, self, args, kwargs):
     if isinstance(args[0], Sym):
         raise Unmodelled("dict.setdefault with symbolic key")
@@ -940,6 +962,8 @@ def install(interp):
     mmods[(dict, "pop")] = mm_dict_pop
     mmods[(dict, "__contains__")] = mm_dict_contains
     mmods[(dict, "setdefault")] = mm_dict_setdefault
+    mmods[(dict, "__setitem__")] = lambda interp, self, args, kwargs: _dict_setitem(interp, self, args)
+    mmods[(dict, "__delitem__")] = lambda interp, self, args, kwargs: _dict_delitem(interp, self, args)
     mmods[(dict, "update")] = mm_dict_update
     mmods[(list, "index")] = mm_list_index
     mmods[(list, "remove")] = mm_list_remove
